@@ -36,8 +36,9 @@ def _empty_test(d):
                         continue
                     break
                 xs = strip_refs(x)
-                if xs.k == "call" and (xs.a[0].endswith("Option::<T>::take") or xs.a[0].endswith("mem::take")) and xs.a[1]:
-                    x = xs.a[1][0]          # emptiness of the field before it was taken
+                if xs.k == "call" and (xs.a[0].endswith("Option::<T>::take") or xs.a[0].endswith("mem::take")
+                                       or xs.a[0].endswith("String::pop") or xs.a[0].endswith("Vec::<T, A>::pop")) and xs.a[1]:
+                    x = xs.a[1][0]          # emptiness of the field before it was taken / popped (pop gives None iff it was empty)
                 sp = self_path(x)
                 if sp and len(sp) == 1:
                     return sp[0], (when_empty if pol else (not when_empty))
@@ -210,11 +211,16 @@ def analyse_paths(prog, fnkey, mods, sess=(), flag_fn=None):
                             infeasible = True
                             break
                         state[f] = "E"
+                        popped = [x for x in strip_refs(d).walk() if x.k == "call" and x.a[0].endswith("::pop")]
+                        if popped:
+                            # the pop found nothing: it was not a write at all
+                            pb = popped[0].a[2] if len(popped[0].a) > 2 else None
+                            writes[:] = [w for w in writes if not (w[0] == f and w[1] == "shrink" and w[2] == pb)]
                         if not any(w[0] == f and w[1] not in ("clear", "=None") for w in writes):
                             refined_before_write[f] = True
                     else:
                         taken = strip_refs(d)
-                        is_take = any(x.k == "call" and (x.a[0].endswith("::take")) for x in taken.walk())
+                        is_take = any(x.k == "call" and (x.a[0].endswith("::take") or x.a[0].endswith("::pop")) for x in taken.walk())
                         if state.get(f) == "E" and not is_take:
                             infeasible = True
                             break
